@@ -42,6 +42,8 @@ def gen_base(rng, sid, family="base", n=None, q=None, refresh="auto", pop=None, 
             op["nopop"] = True
         if rng.random() < 0.3:
             op["prio"] = rng.randint(-2, 4)
+            if rng.random() < 0.15:
+                op["prio"] = rng.choice([1 << 30, -(1 << 30)])   # BarPriority(math.MaxInt) / (math.MinInt): pinned to the bottom / top
         if rng.random() < 0.15:
             op["id"] = rng.randint(0, 2)   # explicit ids, likely to collide with each other and with default ids
         if ext and rng.random() < 0.2:
@@ -176,10 +178,18 @@ def gen_base(rng, sid, family="base", n=None, q=None, refresh="auto", pop=None, 
         for _ in range(rng.choice([0, 0, 1, 2])):
             pos = rng.randint(0, len(progs[c]))
             w = {"op": "write", "line": "T|%d|%d" % (c, nw)}
-            if rng.random() < 0.3:
+            r_ = rng.random()
+            if r_ < 0.3:
                 w["chunks"] = True   # the text and its line feed arrive in two Write calls
+            elif r_ < 0.45:
+                w["more"] = ["T|%dm%d|%d" % (c, j, nw) for j in range(1, rng.randint(2, 3))]   # several lines in one Write call
+            elif r_ < 0.5:
+                w["line"] = "T|%dbig%s|%d" % (c, "a" * 6000, nw)   # a line much longer than any buffer
             progs[c].insert(pos, w)
-            if rng.random() < 0.2:
+            if "big" in w["line"]:
+                # a short line from the same client just before it: the long one must not overtake it
+                progs[c].insert(pos, {"op": "write", "line": "T|%dpre|%d" % (c, nw)})
+            elif rng.random() < 0.2:
                 # the same line once more, straight away (a log line that repeats itself: with idle bars the two frames are identical)
                 progs[c].insert(pos + 1, {"op": "write", "line": w["line"]})
             nw += 1
@@ -295,7 +305,8 @@ def gen_lin(rng, sid):
             elif r < 0.7:
                 progs[c].append({"op": "getab", "b": "b1"})
             elif r < 0.78 and total <= 0:
-                progs[c].append({"op": "settotal", "b": "b1", "n": rng.randint(-1, 4), "flag": rng.random() < 0.3})
+                # (SetTotal(-1, true): "the total is whatever has been counted so far, and the bar is complete")
+                progs[c].append({"op": "settotal", "b": "b1", "n": rng.choice([-1, -1, 0, 2, 4]), "flag": rng.random() < 0.5})
             elif r < 0.84 and total <= 0:
                 progs[c].append({"op": "trigger", "b": "b1"})
             elif r < 0.88:
@@ -564,5 +575,6 @@ def pty_programs(seed, n):
                 steps.append({"op": "refresh", "b": 0})
         for _ in range(3):
             steps.append({"op": "refresh", "b": 0})
-        out.append({"id": "pty-%d-%d" % (seed, i), "h": h, "w": 40, "pop": pop, "exact": exact, "bars": bars, "steps": steps})
+        out.append({"id": "pty-%d-%d" % (seed, i), "h": h, "w": 40, "pop": pop, "exact": exact, "bars": bars, "steps": steps,
+                    "reqw": rng.choice([0, 0, 20, 64])})   # WithWidth: not given, narrower, wider than the terminal (which then limits the rows)
     return out
